@@ -27,8 +27,8 @@ AUX = 4096
 ASAN_ENV = {'ASAN_OPTIONS': 'malloc_fill_byte=190:max_malloc_fill_size=1073741824:detect_leaks=0:abort_on_error=0',
             'UBSAN_OPTIONS': 'print_stacktrace=0'}
 F4_KEY = 'discussion-comment-stale-pointer'
-CHUNK_TIMEOUT = 45
-MAX_CRASHES = 6
+CHUNK_TIMEOUT = 600      # wall-clock last resort only; hangs are cut by the harness' own 4 s CPU-time watchdog per op
+MAX_CRASHES = 4
 UNDEF = 2147483647
 
 
@@ -463,6 +463,98 @@ def fixed_scripts():
     return out
 
 
+def sized_entity(rng, i, size_class):
+    """an entity whose size is controlled: 0 = smallest node (48 bytes), 1 = medium, 2 = large"""
+    if size_class == 0:
+        kind = rng.choice(['node', 'way', 'relation'])
+        ops = [kind, 'set id %d' % i, 'end']
+        pre = '%s{%d,0,0,0,0,0,' % (kind[0], i) + ('%d,%d,' % (UNDEF, UNDEF) if kind == 'node' else '') + '-,'
+        return ops, T(pre, '}[]')
+    ulen = rng.choice([6, 13, 14, 30]) if size_class == 1 else rng.choice([60, 100, 200])
+    user = rstr(rng, ulen)
+    kind = rng.choice(['node', 'way', 'relation'])
+    ops = [kind, 'set id %d' % i, 'user ' + hx(user)]
+    subs = []
+    if size_class == 2 or rng.chance(1, 2):
+        o, t = gen_taglist(rng, ntags=1 + rng.below(3), long=(size_class == 2))
+        ops += o
+        subs.append(t)
+    if kind == 'way' and rng.chance(1, 2):
+        o, t = gen_nodelist(rng, 'wnl', 'W')
+        ops += o
+        subs.append(t)
+    ops.append('end')
+    pre = '%s{%d,0,0,0,0,0,' % (kind[0], i) + ('%d,%d,' % (UNDEF, UNDEF) if kind == 'node' else '') + hx(user) + ','
+    return ops, T(pre, '}[%s]' % ' '.join(subs))
+
+
+def purge_pattern_scripts(rng):
+    """purge_removed with MIXED item sizes: removed small items directly before larger survivors (the
+    memmove source and destination overlap), runs of removed items of varying total size before
+    survivors of varying size; both overloads."""
+    out = []
+    patterns = [
+        # (size class, removed) per item
+        ('small-removed-then-large', [(0, 1), (2, 0), (0, 0)]),
+        ('two-small-removed-then-large-then-medium', [(0, 1), (0, 1), (2, 0), (1, 0), (0, 1), (2, 0)]),
+        ('medium-removed-then-large', [(1, 1), (2, 0), (2, 0), (0, 1), (1, 0)]),
+        ('large-removed-then-small', [(2, 1), (0, 0), (1, 0), (0, 0)]),
+        ('kept-small-removed-small-large-large', [(0, 0), (0, 1), (2, 0), (2, 0)]),
+        ('alternating', [(0, 1), (1, 0), (0, 1), (2, 0), (1, 1), (2, 0), (0, 1)]),
+        ('all-removed-but-last-large', [(0, 1), (1, 1), (0, 1), (2, 0)]),
+        ('trailing-removed', [(2, 0), (0, 1), (1, 1)]),
+    ]
+    for name, pat in patterns:
+        for cb in (True, False):
+            s = Script('purge-%s-%s' % (name, 'cb' if cb else 'nocb'), False)
+            for i, (cls, _) in enumerate(pat):
+                s.build(*sized_entity(rng, i + 1, cls))
+            s.commit()
+            for i, (_, rm) in enumerate(pat):
+                if rm:
+                    s.setrm(i, 1)
+            s.purge(cb=cb)
+            # second round on the compacted buffer with the other overload
+            if len(s.committed) >= 2:
+                s.build(*sized_entity(rng, 90, 2))
+                s.commit()
+                s.setrm(0, 1)
+                s.purge(cb=not cb)
+            out.append(s)
+    return out
+
+
+def random_purge_script(rng, idx):
+    s = Script('prnd%d' % idx, False)
+    n = 3 + rng.below(5)
+    for i in range(n):
+        s.build(*sized_entity(rng, i + 1, rng.choice([0, 0, 1, 2, 2])))
+        if rng.chance(1, 2):
+            s.commit()
+    if s.pending:
+        s.commit()
+    for rnd in range(1 + rng.below(2)):
+        if not s.committed:
+            break
+        m = len(s.committed)
+        mode = rng.below(3)
+        if mode == 0:
+            k = 1 + rng.below(max(1, m - 1))
+            rm = [i < k for i in range(m)]                       # a run of removed items, then survivors
+        elif mode == 1:
+            rm = [rng.chance(1, 2) for _ in range(m)]
+        else:
+            rm = [i % 2 == 0 for i in range(m)]
+        for i, r in enumerate(rm):
+            if r:
+                s.setrm(i, 1)
+        s.purge(cb=rng.chance(1, 2))
+        for i in range(rng.below(3)):
+            s.build(*sized_entity(rng, 50 + 10 * rnd + i, rng.choice([0, 1, 2])))
+            s.commit()
+    return s
+
+
 def random_script(rng, idx, f4):
     grow_only = rng.chance(1, 2)
     s = Script('rnd%d' % idx, grow_only)
@@ -546,6 +638,22 @@ def run_chunks(cmd, chunks, env=None):
         return list(ex.map(one, chunks))
 
 
+def _alone(cmd, text, env):
+    import subprocess
+    import vlib
+    try:
+        rc, so, se = vlib.sh(cmd, input=text, env=env, timeout=120)
+    except subprocess.TimeoutExpired as e:
+        so = e.stdout or ''
+        if isinstance(so, bytes):
+            so = so.decode('utf-8', 'replace')
+        rc, se = -999, 'timeout (hang)'
+    lines = so.split('\n')
+    if lines and lines[-1] == '':
+        lines.pop()
+    return rc, lines, se
+
+
 class Run:
     def __init__(self, script, cap, mode, ops, cut=None):
         self.script, self.cap, self.mode, self.ops, self.cut = script, cap, mode, ops, cut
@@ -579,9 +687,16 @@ def exec_runs(cmd, runs, fix, env, attr, nchunks=12):
                 if len(got) == n:
                     setattr(r, attr, got)
                     continue
-                # this run did not complete
-                setattr(r, attr, got)
-                r.crash = (rc, se[-3000:])
+                # this run did not complete: confirm by running it alone (a transient failure of a
+                # long-lived process on a loaded machine must not look like a failing input)
+                rc1, so1, se1 = _alone(cmd, r.text(fix), env)
+                if rc1 == 0 and len(so1) == n:
+                    setattr(r, attr, so1)
+                    if chunk[j + 1:]:
+                        nxt.append(chunk[j + 1:])
+                    break
+                setattr(r, attr, so1)
+                r.crash = (rc1, se1[-3000:])
                 if chunk[j + 1:]:
                     nxt.append(chunk[j + 1:])
                 break
@@ -648,6 +763,9 @@ def run(ctx):
     nrand = 90 if quick else 1500
     for i in range(nrand):
         scripts.append(random_script(rng, i, f4=True))
+    scripts += purge_pattern_scripts(rng)
+    for i in range(12 if quick else 300):
+        scripts.append(random_purge_script(rng, i))
     corpus_dir = os.path.join(vlib.ROOT, 'corpus', 'C04')
     # reference runs at a huge capacity (implementation): sizes and final dumps
     def last_op(s):
@@ -674,6 +792,10 @@ def run(ctx):
             # quick tier: random scripts bigger than 70 capacities keep every capacity up to 70 and a stride above
             if s.name.startswith('rnd'):
                 caps = caps[:70] + caps[70::3]
+        if quick and (s.name.startswith('purge-') or s.name.startswith('prnd')):
+            # purge-focused scripts: what purge_removed does is independent of the initial capacity; the
+            # growth points are covered by the other scripts, so a stride is enough here
+            caps = caps[::4]
         for c in caps:
             for mode in ('yes', 'internal', 'no'):
                 if mode == 'no':
@@ -727,7 +849,7 @@ def run(ctx):
         if r.crash:
             rc, se = r.crash
             m = re.search(r'ERROR: AddressSanitizer: (\S+)|runtime error: ([^\n]*)', se)
-            what = (m.group(1) or m.group(2)) if m else ('hang' if rc == -999 else 'exit %d' % rc)
+            what = (m.group(1) or m.group(2)) if m else ('hang' if rc in (-999, 97) else 'exit %d' % rc)
             if s.has_comment and f4_present:
                 ctx.violation(F4_KEY, 'sanitizer report in a discussion script', replay(r))
             else:
